@@ -55,6 +55,9 @@ type VkWorld struct {
 	Log    string             `json:"log"`
 	Ifaces map[string]VkIface `json:"ifaces"`
 	Routes []Route            `json:"routes"` // the loopback routes
+	// StateDelayMS: every read of an interface's forwarding state takes this long (a slow sysctl read),
+	// so that requests that are served at the same time really overlap
+	StateDelayMS int `json:"state_delay_ms,omitempty"`
 }
 
 type VkEvent struct {
@@ -310,6 +313,9 @@ func (vkState) IPv6Forwarding(iface string) (bool, error) {
 	i, ok := vk.w.Ifaces[iface]
 	if !ok {
 		return false, fmt.Errorf("verif: %s: %w", iface, os.ErrNotExist)
+	}
+	if vk.w.StateDelayMS > 0 {
+		time.Sleep(time.Duration(vk.w.StateDelayMS) * time.Millisecond)
 	}
 	// the harness changes the forwarding state of a running process by writing <log>.fwd.<interface>
 	if b, err := os.ReadFile(vk.w.Log + ".fwd." + iface); err == nil && len(b) > 0 {
